@@ -414,6 +414,7 @@ let parse_tcmd (t : string list) : cmd =
   | ["replaceeol"; s] -> CReplace (MEndOfLine, Some (parse_str s))
   | ["replacewl"; s] -> CReplace (MWholeLine, Some (parse_str s))
   | ["yank"] -> CYank (nat_of_int 1, ABefore)
+  | ["yank0"] -> CYank (nat_of_int 0, ABefore)
   | _ -> failwith ("cmd " ^ String.concat " " t)
 
 let fmt_outcome = function
